@@ -338,7 +338,15 @@ func visitInstr(fr *frame, instr ssa.Instruction) continuation {
 
 	case *ssa.IndexAddr:
 		x := fr.get(instr.X)
-		idx := concretize(fr.get(instr.Index))
+		idx := fr.get(instr.Index)
+		if _, ok := idx.(*sym); ok {
+			switch xx := x.(type) {
+			case []value:
+				idx = concretizeIn(idx, 0, int64(len(xx))-1, "index")
+			case *value:
+				idx = concretizeIn(idx, 0, int64(len((*xx).(array)))-1, "index")
+			}
+		}
 		switch x := x.(type) {
 		case []value:
 			fr.env[instr] = &x[asInt64(idx)]
@@ -350,7 +358,17 @@ func visitInstr(fr *frame, instr ssa.Instruction) continuation {
 
 	case *ssa.Index:
 		x := fr.get(instr.X)
-		idx := concretize(fr.get(instr.Index))
+		idx := fr.get(instr.Index)
+		if _, ok := idx.(*sym); ok {
+			switch xx := x.(type) {
+			case array:
+				idx = concretizeIn(idx, 0, int64(len(xx))-1, "index")
+			case *symstr:
+				idx = concretizeIn(idx, 0, int64(len(xx.b))-1, "index")
+			case string:
+				idx = concretizeIn(idx, 0, int64(len(xx))-1, "index")
+			}
+		}
 
 		switch x := x.(type) {
 		case array:
@@ -723,8 +741,17 @@ func doRecover(caller *frame) value {
 		case targetPanic:
 			// The target program explicitly called panic().
 			return p.v
+		case exitPanic:
+			// os.Exit cannot be recovered by the target: keep unwinding
+			caller.caller.panicking = true
+			caller.caller.panic = p
+			panic(p)
 		case runtime.Error:
 			// The interpreter encountered a runtime error.
+			if strings.Contains(p.Error(), "symgo.") {
+				// a Go error inside the engine itself, not a target error: never visible to the target
+				panic(unsupported("engine error: " + p.Error()))
+			}
 			return iface{caller.i.runtimeErrorString, p.Error()}
 		case string:
 			// The interpreter explicitly called panic().
